@@ -129,4 +129,12 @@ theorem fact_C02_eth_signer_is_recovered :
 theorem fact_C02_extension_routing : Generated.anteExtensionRouting =
     ["\"/eth.evm.v1.ExtensionOptionsEthereumTx\"=>evm-chain", "default=>reject"] := by decide
 
+/-- the mechanism behind `EthAddrDisjoint` (an account recovered from an Ethereum signature cannot sign a Cosmos tx): wherever the
+    application configures the signature gas consumer of the Cosmos ante chain it is the SDK's `DefaultSigVerificationGasConsumer`,
+    which rejects every key type it does not know — `eth_secp256k1` among them -/
+theorem fact_C02_cosmos_signature_path_rejects_eth_keys :
+    Generated.sigGasConsumerValues =
+      ["app/ante/handler_opts.go: sdkante.DefaultSigVerificationGasConsumer",
+       "app/app.go: authante.DefaultSigVerificationGasConsumer"] := by decide
+
 end Nibiru.MsgTree
